@@ -5,6 +5,7 @@ import ast
 
 from ..cfg import guards_of
 from ..dataflow import cone, get_defuse, stores
+from ..engines import dimrun
 from ..engines import loop as loopeng
 from ..frontend import const_value, src, walk_no_nested
 
@@ -101,6 +102,8 @@ def run(P, R, tier):
         n = loopeng.check_criterion_source(P, R, F, FIT, ("m_step",))
         R.floor("LOOP.L4-mstep arms", n, 2)
         # the initial previous criterion of the GMM is a finite literal: the step guard is mandatory (checked in L2-second)
+    n, _ = dimrun.route(P, R, ["gmm.fit", "gmm.m_step", "gmm.ml", "gmm.e_step"], rules=["DIM.", "EXT."], where_prefix=["gmm:m_step", "gmm:ml_gmm_m_step", "gmm:e_step", "gmm:GMMMachine.fit"])
+    R.floor("DIM/EXT obligations (GMM ML training)", n, 10)
     check_switch_pairing(P, R, "gmm:ml_gmm_m_step")
     check_switch_pairing(P, R, "gmm:map_gmm_m_step")
     check_mstep_wrapper(P, R)
